@@ -1,9 +1,9 @@
 SPECIFICATION Spec
 CONSTANTS
   MaxN = 4
-  BoxStride = 4
-  CatStride = 4
-  PairStride = 16
+  BoxStride = 5
+  CatStride = 5
+  PairStride = 20
   ShapeFrom = "named dims"
 CONSTRAINT Export
 INVARIANT ImplRefinesReq
